@@ -147,6 +147,7 @@ inline std::string gen_scenario(const unsigned char *data, size_t size, const st
       if (prop == "C12") { static const char *ks[] = {"search", "lsearch", "getaddrinfo", "gethostbyname", "search"}; kind = ks[c.pick(5)]; }
       if (prop == "C13") { static const char *ks[] = {"getaddrinfo", "gethostbyname", "gethostbyaddr", "getnameinfo", "getaddrinfo"}; kind = ks[c.pick(5)]; }
       std::string name = gen_req_name(c, (prop == "C08" && id > 1) ? 1 + (int)c.pick(2) : id, pf);
+      if (prop == "C13" && (kind == "getaddrinfo" || kind == "gethostbyname") && c.chance(1, 10)) name = c.chance(1, 2) ? "192.0.2." + std::to_string(50 + c.pick(100)) : "2001:db8::" + std::to_string(1 + c.pick(200));   // numeric host names
       if (prop == "C08") { static const char *forms[] = {"r%d.test", "r%d.test", "R%d.TEST", "r%d.test.", "r%d.Test"}; char nb[64]; snprintf(nb, sizeof nb, forms[c.pick(5)], 1 + (int)c.pick(2)); name = nb; }
       bool inject_now = pf.inject && c.chance(2, 3);
       if (inject_now) o += "rule * r" + std::to_string(id) + " 0 " + (c.chance(1, 2) ? "silence" : "delay") + "\n";   // keep the request live so that the forged packet is what arrives first
